@@ -38,7 +38,7 @@ package header
 //@   loop 3 invariant nextCalls == old(nextCalls) && hw == old(hw) && bodyWrites == old(bodyWrites)
 //@   loop 4 invariant nextCalls == old(nextCalls) && hw == old(hw) && bodyWrites == old(bodyWrites)
 
-//@ unit header_wrapper frames=on props=C12,C09 filter=`header\.responseWriterWrapper\)\.(WriteHeader|Write|delHeader)$`
+//@ unit header_wrapper frames=on props=C12,C09 filter=`header\.responseWriterWrapper\)\.(WriteHeader|Write|delHeader|Header)$`
 //@ // C12 "exactly one well-formed response": the wrapper forwards the status line at most once (a second WriteHeader is
 //@ // swallowed), a body write forces it out first, and C09: every registered deletion runs on the header map BEFORE the
 //@ // status line goes out, each once, in registration order; a deletion is also carried out at once when it is registered
@@ -55,7 +55,10 @@ package header
 //@ extern (net/http.Header).Del
 //@   modifies ghost:delsNow
 //@   ensures delsNow == old(delsNow) + 1
+//@ extern invoke:(net/http.ResponseWriter).Header
+//@   ensures result != nil
 //@ func (*responseWriterWrapper).Header
+//@   requires rww != nil && rww.ResponseWriterWrapper != nil
 //@   ensures result != nil
 //@ func (*responseWriterWrapper).WriteHeader
 //@   requires rww != nil && rww.ResponseWriterWrapper != nil
